@@ -2098,8 +2098,11 @@ class TargetRegistry:
         self.register(object)
         self.register(dict, get=operator.getitem)
         self.register(dict, keys=dict.keys)
-        self.register(list, get=_get_sequence_item)
-        self.register(tuple, get=_get_sequence_item)
+        # keys=False: the children of a sequence are its items, also for an
+        # instance of a subclass that has a __dict__ (which would
+        # otherwise be walked as a plain object, by its attributes)
+        self.register(list, get=_get_sequence_item, keys=False)
+        self.register(tuple, get=_get_sequence_item, keys=False)
         self.register(OrderedDict, get=operator.getitem)
         self.register(OrderedDict, keys=OrderedDict.keys)
         self.register(_AbstractIterable, iterate=iter)
